@@ -362,6 +362,16 @@ package virtual
 //@   ensures a-granted-link-adds-one: r0 == StatusOK ==> delta(&l.linkCount) == old(delta(&l.linkCount)) + 1
 //@   ensures stale-or-ok: r0 == StatusOK || r0 == StatusErrStale
 
+// Uploading a file that may still be written to: the contents are frozen for
+// the upload only once no descriptor is open for writing any more, or after the
+// bounded wait for the writers ran out; the wait never gives up early.
+//@ func (*fileBackedFile).waitAndOpenReadFrozen
+//@   props C16
+//@   at call openReadFrozen#1 assert frozen-only-without-writers-or-after-the-bounded-wait:
+//@             f.writableDescriptorsCount == 0 || deadlineExceeded
+//@   at call openReadFrozen#1 assert in-critical-section: held(f.lock) == 1
+//@   loop 0 invariant (f.file != nil) == (f.referenceCount > 0) && f == old(f)
+
 // Loading a directory of the input root from its Directory message (C17): every
 // entry of the message becomes exactly one child (an invalid or duplicate name
 // fails the whole directory instead of being dropped or overwritten), and the
